@@ -72,7 +72,7 @@ def gen_lines(rng, build, reps, which='C10'):
                     elif o == 'from_bytes_checked':
                         v = [gen.rand_field(rng, m), m + rng.below(1000), m - 1, m, m + 1, 2**(8 * n8) - 1, 0, 1 << (m.bit_length() - 1)][rep % 8]
                         lines.append('%s %s' % (op, (v % 2**(8 * n8)).to_bytes(n8, 'little').hex()))
-                    elif o == 'ark.deser' or o.startswith('ark.deser_flags'):
+                    elif o in ('ark.deser', 'ark.deser.drip') or o.startswith('ark.deser_flags'):
                         v = [gen.rand_field(rng, m), m - 1, m, m + 1][rep % 4] % 2**(8 * n8); b = bytearray(v.to_bytes(n8, 'little'))
                         if rep % 7 == 1: b[-1] |= 0x80
                         if rep % 7 == 2: b[-1] |= 0xc0
